@@ -414,18 +414,32 @@ func c18Chunks(w *World, r *Report) {
 			if nsend == 0 {
 				ob.Violate("no-send", rf.Pos(), "the chunk writer never sends")
 			}
+			nonPositive := func(b *ssa.BasicBlock, k int) bool {
+				for _, l := range ctx.EdgeLits(b, k) {
+					if l.Kind == "int" && l.Terms == "rd#0" && !l.IsNE && l.Hi <= 0 {
+						return true
+					}
+				}
+				return false
+			}
 			for _, b := range rf.Blocks {
 				for k := range b.Succs {
 					for _, l := range ctx.EdgeLits(b, k) {
 						if l.Kind == "int" && l.Terms == "rd#0" && !l.IsNE && l.Lo >= 1 && l.Hi >= posInf {
 							ob.Site(blockPos(b.Succs[k]), "edge n > 0")
-							p := (&Walk{Barrier: isSend, Target: func(x ssa.Instruction) bool { return x == read.(ssa.Instruction) || isSuccessReturn(x) }}).Find(Loc{b.Succs[k], 0})
+							p := (&Walk{Barrier: isSend, EdgeOK: func(b *ssa.BasicBlock, k int) bool { return !nonPositive(b, k) }, Target: func(x ssa.Instruction) bool { return x == read.(ssa.Instruction) || isSuccessReturn(x) }}).Find(Loc{b.Succs[k], 0})
 							if p != nil {
 								ob.Violate("bytes-read-not-sent", blockPos(b.Succs[k]), "bytes that were read can be dropped without being sent (e.g. a short final read)", w.PathString(p)...)
 							}
 						}
 					}
 				}
+			}
+			// the other way round: whatever way leads from the read to the next read or to a success
+			// return without a Send must have established n <= 0 (a reader may hand out bytes together
+			// with io.EOF: the error must not be looked at before the bytes are shipped)
+			if p := (&Walk{Barrier: isSend, EdgeOK: func(b *ssa.BasicBlock, k int) bool { return !nonPositive(b, k) }, Target: func(x ssa.Instruction) bool { return x == read.(ssa.Instruction) || isSuccessReturn(x) }}).Find(after(read.(ssa.Instruction))); p != nil {
+				ob.Violate("bytes-read-not-sent/untested", read.Pos(), "from the read the next read or a success return can be reached without a Send and without having established n <= 0: bytes returned together with an error (io.EOF) are dropped", w.PathString(p)...)
 			}
 			// success only over EOF
 			eachInstr(rf, func(in ssa.Instruction) {
